@@ -75,7 +75,8 @@ def check_seq(case: Dict[str, Any]) -> Outcome:
     sids: List[Optional[str]] = []
 
     async def one(k: int, st_: Dict[str, Any], sid_in: Optional[str]):
-        params: Dict[str, Any] = {"capabilities": {}, "clientInfo": {"name": f"c{k}", "version": "1"}}
+        # the same client program connecting again identifies itself the same way every time
+        params: Dict[str, Any] = {"capabilities": {}, "clientInfo": {"name": "c" if case.get("same_client") else f"c{k}", "version": "1"}}
         if st_["version"] != ABSENT:
             params["protocolVersion"] = st_["version"]
         msg = parse_message({"jsonrpc": "2.0", "id": k, "method": "initialize", "params": params})
@@ -104,7 +105,7 @@ def check_seq(case: Dict[str, Any]) -> Outcome:
         return out
     versions = [st_["version"] for st_ in steps]
     out.nontrivial = len({json.dumps(v) for v in versions}) > 1
-    out.classes = ("history", f"len:{len(steps)}", "mixed-versions" if out.nontrivial else "one-version", "with-reuse" if any(st_.get("reuse") is not None for st_ in steps) else "no-reuse") + (("concurrent",) if case.get("concurrent") else ())
+    out.classes = (("same-client-identity",) if case.get("same_client") else ()) + ("history", f"len:{len(steps)}", "mixed-versions" if out.nontrivial else "one-version", "with-reuse" if any(st_.get("reuse") is not None for st_ in steps) else "no-reuse") + (("concurrent",) if case.get("concurrent") else ())
     sessions = h.session_manager.list_sessions()
     last_for_sid: Dict[str, Any] = {}
     for k, (st_, kp) in enumerate(zip(steps, kept)):
@@ -356,6 +357,8 @@ def job_seq(col: Collector, seed: int, tier: str) -> None:
             for reuse in itertools.product(*[[None] + list(range(k)) for k in range(L)]):
                 case = {"seq": [{"version": v, "reuse": r} for v, r in zip(vs, reuse)]}
                 col.record(case, check(case))
+            case = {"seq": [{"version": v, "reuse": None} for v in vs], "same_client": True}
+            col.record(case, check(case))
     # the same requests in flight at the same time (no session reuse)
     for L in (2, 3):
         for vs in itertools.product(SEQ_VERSIONS + ["latest"], repeat=L):
@@ -371,6 +374,8 @@ def seq_cases(draw):
     for k in range(n):
         seq.append({"version": draw(st.one_of(st.sampled_from(SEQ_VERSIONS), _versions)), "reuse": draw(st.one_of(st.none(), st.integers(0, k - 1))) if k else None})
     case = {"seq": seq}
+    if draw(st.integers(0, 2)) == 0:
+        case["same_client"] = True
     if draw(st.integers(0, 2)) == 0:
         case = {"seq": [dict(x, reuse=None) for x in seq], "concurrent": True}
     return case
